@@ -140,6 +140,24 @@ def is_intact_hole(item):
         and _is_lit(b[0], _HOLE_CODES[2]) and _is_lit(b[1], _HOLE_CODES[3])
 
 
+def hole_absorbed(tree):
+    """True if hole literals occur outside an intact hole alternation: neighbouring items were pulled into one of the
+    hole's alternatives (the hole was concatenated without a group of its own)."""
+    hit = []
+
+    def walk(x):
+        if isinstance(x, tuple) and len(x) == 2 and x[0] is sre_c.BRANCH and is_intact_hole(x):
+            return
+        if isinstance(x, tuple) and len(x) == 2 and x[0] is sre_c.LITERAL and x[1] in _HOLE_CODES:
+            hit.append(x)
+            return
+        if isinstance(x, (tuple, list, sre_parse.SubPattern)):
+            for y in x:
+                walk(y)
+    walk(tree)
+    return bool(hit)
+
+
 def unwrap_groups(item):
     """Follow SUBPATTERN wrappers that contain exactly one item; returns (innermost item, [group numbers])."""
     groups = []
